@@ -136,8 +136,11 @@ def child_setup_factory(root, me):
         holder = {}
         loop = env["loop"]
 
-        def start(draws):
+        def start(draws, fdraws=None):
             state.update(phase="start", draws=list(draws), gets=0)
+            if fdraws is not None:
+                fd = list(fdraws)
+                lockmod.randrange = lambda a, b=None: fd.pop(0) if fd else 500 + me
             holder["cm"] = ec.run()
             loop.run_until_complete(holder["cm"].__aenter__())
             state["phase"] = "running"
@@ -200,9 +203,15 @@ class C23(Check):
     trusted = ["harness/procs.py (gated child processes)", "stand-ins inside the children for netlink attach / detach, bpf obj_pin / obj_get / create_map and the "
                "raw socket (files in a scratch directory); the file-system calls themselves are real, redirected into a scratch root"]
     assumptions = ["every operation on a shared object is atomic (rename, open 'x', remove, rmdir, pin, attach)", "participants do not crash between operations"]
-    known_classes = {"leaver_detaches_fresh_dispatcher": lambda case, o: bool(case.get("_leaver_race"))}
+    known_classes = {"leaver_detaches_fresh_dispatcher": lambda case, o: bool(case.get("_leaver_race")),
+                     "starter_replaces_emptied_lockdir": lambda case, o: bool(case.get("_empty_dir_race"))}
 
     def make_case(self, rng):
+        if rng.random() < 0.1:
+            # a participant stops as the last one and starts AGAIN (the same master object); another participant then
+            # draws the window the first one had (and has again)
+            w = rng.choice([1, 7, 300, 511])
+            return {"kind": "restart", "w": w, "w2": rng.choice([x for x in (2, 9, 77, 510) if x != w]), "again": rng.choice([w, w, 5])}
         if rng.random() < 0.12:
             # an allocation against a removal (or the other way round) touching the same byte of the map; a third
             # process then asks for the window whose bit a lost update would have cleared / kept
@@ -233,6 +242,7 @@ class C23(Check):
     def corpus(self):
         return [{"kind": "startstop", "n": 2, "sched": [0] * 5 + [0] * 3 + [1] * 5 + [0] * 2, "draws": [[1], [1]]},
                 {"kind": "fmmu", "draws": [[1, 9], [7, 8], [7, 9]], "creator_gated": True},
+                {"kind": "restart", "w": 7, "w2": 11, "again": 7},
                 {"kind": "fmmu_rel", "a": 20, "b": 17, "other": 9, "dir": "remove_first"},
                 {"kind": "fmmu_rel", "a": 1, "b": 7, "other": 300, "dir": "alloc_first"}]
 
@@ -414,7 +424,33 @@ class C23(Check):
                 k.close()
             shutil.rmtree(root, ignore_errors=True)
 
+    def run_restart(self, case):
+        """A starts (window w) and stops as the last participant, starts again on the same master object (drawing `again`), then B
+        starts and draws A's current window first"""
+        root = tempfile.mkdtemp(prefix="verif_c23_")
+        for d in ("/run/lock", "/sys/fs/bpf", "/run/ebpf"):
+            os.makedirs(root + d)
+        A, B = kids = [Child(child_setup_factory(root, i)) for i in range(2)]
+
+        def val(r):
+            return r[1] if r[0] == "ok" else f"{r}"
+        try:
+            a1 = val(A.call("start", [1], [case["w"]]))
+            s1 = val(A.call("stop"))
+            a2 = val(A.call("start", [1], [case["again"], case["w2"] + 1]))
+            wa = a2["fmmu"] if isinstance(a2, dict) else None
+            b1 = val(B.call("start", [2], [wa if wa is not None else case["w"], case["w2"]]))
+            return {"a1": a1, "stop": s1, "a2": a2, "b": b1}
+        finally:
+            for k in kids:
+                k.close()
+            shutil.rmtree(root, ignore_errors=True)
+
     def run_impl(self, case):
+        if case["kind"] == "restart":
+            o = self.run_restart(case)
+            case["_o"] = o
+            return o
         if case["kind"] == "fmmu_rel":
             o = self.run_fmmu_rel(case)
             case["_o"] = o
@@ -428,6 +464,12 @@ class C23(Check):
         o = case.get("_o")
         if o is None or isinstance(o, Err):
             return None
+        if case["kind"] == "restart":
+            # A allocates w, releases it (last to stop), allocates again, B allocates: through the proven step function
+            a2 = o["a2"]["fmmu"] if isinstance(o["a2"], dict) else -1
+            ops = [f"OAlloc 0 {clist([cz(case['w']), cz(500)])}", "ORelease 0", f"OAlloc 0 {clist([cz(case['again']), cz(case['w2'] + 1), cz(500)])}",
+                   f"OAlloc 1 {clist([cz(a2), cz(case['w2']), cz(501)])}"]
+            return f"(run_fmmu_ops {clist(ops)})"
         if case["kind"] == "fmmu_rel":
             ops = [f"OAlloc {cz(int(x[1]))} {clist([cz(d) for d in o['draws'][int(x[1])] + [500]])}" if x[0] == "A" else f"ORelease {cz(int(x[1]))}" for x in o["ops"]]
             return f"(run_fmmu_ops {clist(ops)})"
@@ -437,14 +479,26 @@ class C23(Check):
         return f"(run {cnat(case['n'])} {clist(sched)})"
 
     def model_value(self, case, o):
+        if case["kind"] == "restart":
+            return [x["fmmu"] if isinstance(x, dict) else -9 for x in (o["a1"], o["a2"], o["b"])]
         if case["kind"] == "fmmu_rel":
             return o["windows"]
         if case["kind"] == "fmmu":
             return [o["windows"][q] for q in o["order"]]
         return [(-1 if o["files"] is None else o["files"]), -1 if o["pin"] is None else o["pin"], -1 if o["att"] is None else o["att"],
-                [[pc, (0 if (e is None or pc == 16) else e), (-1 if (t is None or pc == 16) else t)] for pc, e, t in o["final"]]]
+                [[pc, (0 if (e is None or pc in (16, 2)) else e), (-1 if (t is None or pc == 16) else t)] for pc, e, t in o["final"]]]
 
     def holds(self, case, o):
+        if case["kind"] == "restart":
+            for k in ("a1", "a2", "b"):
+                if not isinstance(o[k], dict):
+                    return f"participant failed to start ({k}): {o[k]}"
+            if o["a2"]["fmmu"] == o["b"]["fmmu"]:
+                return (f"after stopping and starting again, participant A uses the logical address window {o['a2']['fmmu']}, and participant B, "
+                        f"started while A is running, was given the same window")
+            if o["a2"]["eth"] == o["b"]["eth"]:
+                return f"both running participants use ethertype {o['a2']['eth']:#x}"
+            return True
         if case["kind"] == "fmmu_rel":
             w = o["windows"]
             if any(not isinstance(x, int) for x in w) or o["removed"] is not None:
@@ -469,6 +523,21 @@ class C23(Check):
             pattern = any(a[1] == "rmdir" and any(b[0] != a[0] and b[1] == "rename" and any(c[0] == a[0] and c[1] in ("detach", "unpin") for c in st[j + 1:])
                                                    for j, b in enumerate(st) if j > i) for i, a in enumerate(st))
             case["_leaver_race"] = pattern and all(v[0] == "P2" for v in o["violations"])
+            # the other shape of the same missing lock: a leaver has removed its lock file (the directory is empty but still there), a
+            # starter's rename REPLACES the empty directory and it becomes the first of a new generation, while the leaver (and a
+            # joiner of the old generation) are still on their way
+            def idx(p, what, start=0):
+                return next((k for k in range(start, len(st)) if st[k][0] == p and st[k][1] == what), None)
+            pattern2 = False
+            for i, a in enumerate(st):
+                if a[1] != "remove_lockfile":
+                    continue
+                rm = idx(a[0], "rmdir", i)
+                for j in range(i + 1, len(st) if rm is None else rm):
+                    b = st[j]
+                    if b[0] != a[0] and b[1] == "rename" and idx(b[0], "attach", j) is not None:
+                        pattern2 = True
+            case["_empty_dir_race"] = pattern2 and not case["_leaver_race"] and all(v[0] == "P2" for v in o["violations"])
             return f"{kind}: {what}; schedule {case['sched']} steps {[(a, b) for a, b, c in o['steps']]}"
         bad = [e for e in o["errors"] if "FileNotFoundError" not in e and "FileExistsError" not in e]
         if bad:
@@ -482,11 +551,12 @@ class C23(Check):
         return ("75% start/stop schedules of 2-3 forked participants: random interleavings (bursts of 1-6 steps) of their gated operations on the lock directory, "
                 "the pinned program table and the attachment, with scripted ethertype draws; 18% concurrent creation of the FMMU lock by 2-4 processes with "
                 "colliding window draws, the creator interrupted right after creating the file; 12% an allocation against a removal on the same map byte (one of "
-                "them stopped between reading and writing the byte, the other must wait), then a third process asks for the window in question; "
+                "them stopped between reading and writing the byte, the other must wait), then a third process asks for the window in question; 10% a participant that stops as the last one and starts again on the same master "
+                "object, after which another one draws its window; "
                 "corpus: the leaver / fresh starter race")
 
     def distribution(self, cases, observed):
-        d = {"startstop": 0, "fmmu": 0, "fmmu_rel": 0, "steps": 0, "joiners": 0, "lock_waits": 0}
+        d = {"startstop": 0, "fmmu": 0, "fmmu_rel": 0, "restart": 0, "steps": 0, "joiners": 0, "lock_waits": 0}
         for c, o in zip(cases, observed):
             d[c["kind"]] += 1
             if c["kind"] == "fmmu_rel" and not isinstance(o, Err):
